@@ -7,6 +7,7 @@ import (
 	"time"
 
 	"go.sia.tech/core/types"
+	"go.sia.tech/coreutils/wallet"
 	"verifharness/vh"
 )
 
@@ -384,6 +385,9 @@ func (s *script) bcast(h int, viaWallet bool) {
 		t.inPool = true
 		s.numberOutputs(t)
 	}
+	if viaWallet {
+		e.wtx = append(e.wtx, t.v2t)
+	}
 	s.emit(op, "ok")
 }
 
@@ -586,6 +590,63 @@ func (s *script) restart(fresh bool) {
 	e.openWallet()
 	s.kinds["restart"]++
 	s.emit(fmt.Sprintf("restart %d", k), "ok")
+	s.checkReloaded()
+}
+
+// checkReloaded (O): right after a restart every transaction of a stored broadcast set that is
+// younger than the rebroadcast period and can still be confirmed (every input is an unspent output
+// of the chain or the output of a transaction that is pooled again) is in the pool again, whatever
+// else the store holds — otherwise Balance, SpendableOutputs and selection would hand its inputs out.
+func (s *script) checkReloaded() {
+	e := s.e
+	_, utxos, err := e.ws.UnspentSiacoinElements()
+	must(err)
+	conf := map[types.SiacoinOutputID]bool{}
+	for _, u := range utxos {
+		conf[u.ID] = true
+	}
+	for _, txn := range e.wtx {
+		pv := e.pool()
+		ok := true
+		for _, in := range txn.SiacoinInputs {
+			if in.Parent.SiacoinOutput.Address != e.addr {
+				continue
+			}
+			if _, pooled := pv.created[in.Parent.ID]; !conf[in.Parent.ID] && !(pooled && pv.v2made[in.Parent.ID]) {
+				ok = false // confirmed meanwhile, or its parent is gone for good
+			}
+		}
+		if !ok {
+			continue
+		}
+		if _, in := e.cm.V2PoolTransaction(txn.ID()); !in {
+			spent := false
+			for _, i := range txn.SiacoinInputs {
+				spent = spent || pv.spent[i.Parent.ID]
+			}
+			if spent {
+				continue // another pooled transaction took an input first (it cannot have been pooled together with this one)
+			}
+			s.c.Oracle("restart-set-not-reloaded", "after the restart a transaction of a stored, unexpired broadcast set whose inputs are all unspent is not in the pool (the store holds %d sets); its inputs are handed out again", s.storedSets())
+		}
+	}
+}
+
+func (s *script) storedSets() int {
+	sets, err := s.e.ws.BroadcastedSets()
+	must(err)
+	return len(sets)
+}
+
+// stale: the store holds a broadcast set older than the rebroadcast period (the node was down, or
+// the set was never cleaned up because no reorg triggered the rebroadcast loop).
+func (s *script) stale() {
+	e := s.e
+	old := wallet.BroadcastedSet{Basis: e.storeTip(), BroadcastedAt: time.Now().Add(-72 * time.Hour),
+		Transactions: []types.V2Transaction{{ArbitraryData: e.unique("s")}}}
+	must(e.ws.AddBroadcastedSet(old))
+	s.kinds["stale"]++
+	s.emit("stale", "ok")
 }
 
 func (s *script) redistribute(outputs int, amt, fpb types.Currency) {
@@ -726,6 +787,7 @@ func (s *script) split(n int, min types.Currency) {
 	}
 	s.numberOutputs(t)
 	e.txns[h] = t
+	e.wtx = append(e.wtx, txn)
 	s.checkReservedAreInputs("split", before, t.inputs)
 	nOut := len(txn.SiacoinOutputs)
 	s.emit(op, fmt.Sprintf("ok in %s n %d per %s last %s f %s", idList(ids), nOut, cur(txn.SiacoinOutputs[0].Value), cur(txn.SiacoinOutputs[nOut-1].Value), cur(txn.MinerFee)))
